@@ -189,6 +189,20 @@ UpdateBadArgs(m, which) ==
     /\ Tick /\ Log([a |-> "UpdateBadArgs", m |-> m, which |-> which]) /\ cfg[m] # NULL
     /\ err' = "ValueError" /\ UNCHANGED <<cfg, hist, nUpd, Fm, disk>>
 
+\* ---------------------------------------------------------------- object life cycle (C08)
+\* The client duplicates a mineral object (copy.deepcopy, or a pickle round trip - what a process pool does to
+\* every argument).  The duplicate is a mineral "built identically": same configuration, same stored history, and
+\* from then on the two evolve independently - whatever one of them does, the other is the solo mineral it was
+\* (twins, non-interference: minerals share no hidden state, not even with their own copies).
+CloneHows == {"deepcopy", "pickle"}
+Clone(m, m2, how) ==
+    /\ Tick /\ Log([a |-> "Clone", m |-> m, m2 |-> m2, how |-> how]) /\ cfg[m] # NULL /\ cfg[m2] = NULL
+    /\ cfg'  = [cfg EXCEPT ![m2] = cfg[m]]
+    /\ hist' = [hist EXCEPT ![m2] = hist[m]]
+    /\ nUpd' = [nUpd EXCEPT ![m2] = nUpd[m]]
+    /\ Fm'   = [Fm EXCEPT ![m2] = Fm[m]]
+    /\ err' = "None" /\ UNCHANGED disk
+
 \* ---------------------------------------------------------------- client faults (C07)
 \* The callables the client hands over (velocity gradient, position, regime) may raise the client's own
 \* exception at any evaluation: the very first one, part-way through the interval, or just before its end.
@@ -204,7 +218,9 @@ UpdateFaulted(m, fl, par, fc) ==
 \* the same in a bulk update, raised while the FIRST mineral of the list is being integrated: no mineral moves
 UpdateAllFaulted(ms, fl, par, fc) ==
     /\ Tick /\ Log([a |-> "UpdateAllFaulted", ms |-> ms, fl |-> fl, par |-> par, fc |-> fc])
-    /\ Len(ms) >= 1 /\ AllOk(ms, fl, par) /\ SameF(ms)
+    /\ Len(ms) >= 1 /\ AllOk(ms, fl, par)
+    \* (no SameF: the call fails whatever deformation gradient was handed in - in particular the minerals of the list
+    \*  may have histories of different lengths, e.g. one of them was advanced alone before the other joined)
     /\ err' = "ClientFault" /\ UNCHANGED <<cfg, hist, nUpd, Fm, disk>>
 
 \* ---------------------------------------------------------------- post-processing in the workflow (C10)
